@@ -4,7 +4,7 @@ from hypothesis import strategies as st
 from vlib.runner import Violation, call
 
 PID = "C19"
-RULE = ("Hypothesis-generated parameters (exponential a in (0.01,10]; Poisson mean in (0,20], k up to 1000; power law alpha in "
+RULE = ("Hypothesis-generated parameters (exponential a in (0.01,10]; Poisson mean in (0,1000] (floats and ints), k up to 1000; integer-typed exponents; power law alpha in "
         "[2,8]; cut-off power law alpha in [2,6], kappa in [0.01,2000]) x degrees k over the support (Python and numpy "
         "ints); oracle = mpmath closed forms at 40 digits (zeta, polylog) within the series-truncation tolerance "
         "derived from the code's stopping rule; non-negativity; partial sums + analytic tail = 1. Non-trivial = "
@@ -20,9 +20,9 @@ def strategy(tier):
     bigk = st.lists(st.one_of(st.integers(0, 100), st.integers(100, 10000)), min_size=1, max_size=6)
     return st.one_of(
         st.fixed_dictionaries({"dist": st.just("exponential"), "a": st.floats(0.01, 10.0), "ks": bigk, "np": st.booleans()}),
-        st.fixed_dictionaries({"dist": st.just("poisson"), "m": st.floats(0.01, 20.0), "ks": st.lists(st.one_of(st.integers(0, 100), st.integers(100, 1000)), min_size=1, max_size=6), "np": st.booleans()}),
-        st.fixed_dictionaries({"dist": st.just("power_law"), "alpha": st.floats(2.0, 8.0), "ks": bigk, "np": st.booleans()}),
-        st.fixed_dictionaries({"dist": st.just("cutoff"), "alpha": st.floats(2.0, 6.0),
+        st.fixed_dictionaries({"dist": st.just("poisson"), "m": st.one_of(st.floats(0.01, 20.0), st.floats(20.0, 1000.0), st.integers(1, 300)), "ks": st.lists(st.one_of(st.integers(0, 100), st.integers(100, 1000)), min_size=1, max_size=6), "np": st.booleans()}),
+        st.fixed_dictionaries({"dist": st.just("power_law"), "alpha": st.one_of(st.floats(2.0, 8.0), st.integers(2, 12)), "ks": bigk, "np": st.booleans()}),
+        st.fixed_dictionaries({"dist": st.just("cutoff"), "alpha": st.one_of(st.floats(2.0, 6.0), st.integers(2, 8)),
                                "kappa": st.one_of(st.floats(0.01, 0.2), st.floats(0.1, 20.0), st.floats(20.0, 2000.0)), "ks": bigk, "np": st.booleans()}),
     )
 
@@ -93,14 +93,18 @@ def check(case):
             worst = max(worst, float(err / ex))
     # normalisation: partial sum over k <= M plus exact tail
     lo = 0 if d in ("exponential", "poisson") else 1
-    M = 200 if d != "poisson" else 150
+    M = 200
+    if d == "poisson":
+        mm = float(case["m"])
+        lo = max(0, int(mm - 12 * mm ** 0.5 - 10))
+        M = int(mm + 12 * mm ** 0.5 + 40)
     s = mp.mpf(0)
     for k in range(lo, M + 1):
         s += mp.mpf(float(call("evaluate", f, k)))
     if d == "exponential":
         t = tail(M)
     elif d == "poisson":
-        t = 1 - sum(exact(k) for k in range(lo, M + 1))
+        t = 1 - sum(exact(k) for k in range(lo, M + 1))  # exact mass outside the window [lo, M]
     elif d == "power_law":
         t = tail(M)
     else:
